@@ -15,3 +15,27 @@ pub open spec fn slide_moves(v: Pos, piece: u64, rook_like: bool, s: u32, d: u32
     s < 64 && d < 64 && p == 0 && bit_set(occ(side(v, v.turn), piece), s) && !own_at(v, d)
     && (if rook_like { rook_reach(s, d, full_occ(v)) } else { bishop_reach(s, d, full_occ(v)) })
 }
+
+pub open spec fn last_row(turn: u32, d: u32) -> bool { row_of(d) == (if turn == 0 { 0u32 } else { 7u32 }) }
+/// promotion piece matches the target square: one of N,B,R,Q exactly on the last rank, none elsewhere
+pub open spec fn promo_matches(v: Pos, d: u32, p: u64) -> bool { if last_row(v.turn, d) { 2 <= p && p <= 5 } else { p == 0 } }
+/// pawn captures, including en passant, with promotion when reaching the last rank
+pub open spec fn pawn_capture_moves(v: Pos, s: u32, d: u32, p: u64) -> bool {
+    s < 64 && d < 64 && bit_set(side(v, v.turn).pawns, s) && pawn_att(v.turn, s, d)
+    && (bit_set(all_occ(side(v, (1 - v.turn) as u32)), d) || (v.ep != 0 && d == v.ep))
+    && promo_matches(v, d, p)
+}
+/// pawn pushes: one step onto an empty square, two steps from the home rank over two empty squares; promotion on the last rank
+pub open spec fn pawn_push_moves(v: Pos, s: u32, d: u32, p: u64) -> bool {
+    let white = v.turn == 0;
+    s < 64 && d < 64 && bit_set(side(v, v.turn).pawns, s) && promo_matches(v, d, p)
+    && ((if white { s == d + 8 } else { d == s + 8 }) && !bit_set(full_occ(v), d)
+        || ((if white { 48 <= s && s < 56 && s == d + 16 } else { 8 <= s && s < 16 && d == s + 16 })
+            && !bit_set(full_occ(v), d) && !bit_set(full_occ(v), ((s + d) / 2) as u32)))
+}
+
+/// a target bit of the pawn-attack mask of `src`
+pub open spec fn pawn_target_ok(v: Pos, src: u32, t: u32) -> bool {
+    src < 64 && t < 64 && bit_set(side(v, v.turn).pawns, src) && pawn_att(v.turn, src, t) && !own_at(v, t)
+    && (bit_set(all_occ(side(v, (1 - v.turn) as u32)), t) || (v.ep != 0 && t == v.ep))
+}
